@@ -81,4 +81,4 @@ if __name__ == '__main__':
     mod = importlib.util.module_from_spec(spec)
     sys.modules[spec.name] = mod
     spec.loader.exec_module(mod)
-    json.dump([run(mod, h) for h in payload['histories']], open(sys.argv[2], 'w'))
+    json.dump([run(mod, h) for h in payload['histories']], open(sys.argv[2], 'w'), default=lambda o: 'object of type ' + type(o).__name__)
